@@ -58,7 +58,10 @@ def gen_pop_case(rng, crnc_bias=0.5, metrics=METRICS):
         cf = rng.choice(["cd", "ce", "mnn", "2nn"])     # compiled pcd with 3+ objectives: known finding, exercised by C13 in isolation
     r = rng.random()
     k = 1 if r < 0.1 else n if r < 0.2 else rng.randint(1, n)
-    return {"F": F, "G": G, "H": H, "n_survive": k, "cls": cls, "cf": cf, "style": style, "feasmode": feasmode, "seed": rng.randrange(2 ** 31)}
+    case = {"F": F, "G": G, "H": H, "n_survive": k, "cls": cls, "cf": cf, "style": style, "feasmode": feasmode, "seed": rng.randrange(2 ** 31)}
+    if rng.random() < 0.25:
+        case["prime"] = rng.choice(["other", "same"])     # the operator object has served another (all-feasible) / the same population before
+    return case
 
 
 class OracleRec:
@@ -165,6 +168,16 @@ def run_survival(case):
     snap = [pop.get(k).copy() for k in ("X", "F", "G", "H")]
     CV = pop.get("CV")[:, 0].astype(float); feas = pop.get("feasible")[:, 0].astype(bool)
     surv_op = (ConstrRankAndCrowding if case["cls"] == "ConstrRankAndCrowding" else RankAndCrowding)(crowding_func=case["cf"])
+    if case.get("prime"):
+        # an algorithm keeps ONE survival object for all generations: it has served another population before
+        pc = dict(case); pc["F"] = [list(r) for r in reversed(case["F"])][: max(1, n - 1)]
+        pc["G"] = [[-1.0] * n_ieq for _ in pc["F"]] if n_ieq else case["G"]
+        pc["H"] = [[0.0] * n_eq for _ in pc["F"]] if n_eq else case["H"]
+        if case["prime"] == "same":
+            pc = case
+        pop0, prob0, _, _ = build_pop(pc)
+        np.random.seed(case["seed"] + 1)
+        surv_op.do(prob0, pop0, n_survive=max(1, min(len(pop0), case["n_survive"] // 2 + 1)))
     np.random.seed(case["seed"])
     with OracleRec(surv_op) as rec:
         out = surv_op.do(prob, pop, n_survive=case["n_survive"])
